@@ -55,6 +55,13 @@ def text_scenarios(tier, rng):
                             if rng.random() < 0.5:
                                 sched.append("P")
                             sched.append("W%d" % k)
+                        # lifecycle calls that must change nothing: start on the started source, stop immediately followed by start
+                        r = rng.random()
+                        if r < 0.3:
+                            sched.insert(rng.randint(1, len(sched)), "S")
+                        elif r < 0.45:
+                            i = rng.randint(1, len(sched))
+                            sched[i:i] = ["T", "S"]
                         out.append([cfg, sched])
     return out
 
@@ -227,8 +234,11 @@ def _collect(res, node, traces, reached, problems):
             if r["cfg"].get("multibyte_split"):
                 sig["variant"] = "poll-inside-multibyte-character"
             cfg = {k: v for k, v in r["cfg"].items() if k != "tmpdir"}
+            # start() on the started source and stop();start() must change nothing: a run with such calls that loses or
+            # repeats records breaks the source lifecycle (C18) as well
+            life = sum(1 for o in r["schedule"] if o in ("S", "T")) > 1
             res.violations.append(dict(
-                property="C17", engine="asrcfile", clause=evt["ev"],
+                property="C17", also=["C18"] if life else [], engine="asrcfile", clause=evt["ev"],
                 what="%s %s schedule '%s': event #%d %s is not what the specification allows (record lost / duplicated / "
                      "modified / not held back)" % (node, json.dumps(cfg, sort_keys=True)[:300], " ".join(r["schedule"]), got[0], evt),
                 signature=sig,
